@@ -12,10 +12,12 @@ import numpy
 XML_HEAD = ('<?xml version="1.0" encoding="utf-8"?>\n'
             '<COLLADA xmlns="http://www.collada.org/2005/11/COLLADASchema" version="1.4.1">\n'
             '<asset><created>2020-01-01T00:00:00</created><modified>2020-01-01T00:00:00</modified></asset>\n')
+XML_HEAD += ('<library_cameras><camera id="cam0"><optics><technique_common><perspective><xfov>45</xfov>'
+             '<znear>0.01</znear><zfar>1000</zfar></perspective></technique_common></optics></camera></library_cameras>\n')
 XML_TAIL = '<scene><instance_visual_scene url="#vs"/></scene>\n</COLLADA>\n'
 LIBS_OPEN = '<library_visual_scenes><visual_scene id="vs">\n'
 LIBS_CLOSE = '</visual_scene></library_visual_scenes>\n'
-CHILD = '<node id="child"><translate>1 0 0</translate></node>\n'
+CHILD = '<node id="child"><translate>1 0 0</translate><instance_camera url="#cam0"/></node>\n'
 
 BAD = 99999989  # an observation that is not (close to) an integer
 
@@ -227,7 +229,9 @@ def run_case(case):
     else:
         doc = collada.Collada()
         trs = [construct(t, form) for t in case['init']]
-        child = scene.Node('child', transforms=[scene.TranslateTransform(1, 0, 0)])
+        cam = collada.camera.PerspectiveCamera('cam0', 45.0, 0.01, 1000.0)
+        doc.cameras.append(cam)
+        child = scene.Node('child', children=[scene.CameraNode(cam)], transforms=[scene.TranslateTransform(1, 0, 0)])
         node0 = scene.Node('n', children=[child], transforms=trs)
         if nest == 0:
             roots = [node0]
@@ -280,16 +284,30 @@ def run_case(case):
                 pass
         return final
 
-    def phase(final, edits, label, key_m, key_s):
-        """edit node.transforms, save, and hold the result against the edited list"""
-        final = plain(final, edits)
-        apply_edits(node, edits, form)
+    def do_save():
         if case.get('save_via') == 'doc':
             doc.save()
         elif nest == 1:
             top.save()           # saving the parent saves (and recomputes) the nodes below it
         else:
             node.save()
+
+    def phase(final, edits, label, key_m, key_s, fault=False):
+        """edit node.transforms, save, and hold the result against the edited list; with fault, a first
+        attempt to save fails inside a child of the node (an instance_camera pointed at nothing), the cause
+        is repaired, and the save is repeated"""
+        final = plain(final, edits)
+        apply_edits(node, edits, form)
+        if fault:
+            camnode = node.children[0].children[0]
+            good = camnode.camera
+            camnode.camera = doc.cameras.get('no-such-camera')
+            try:
+                do_save()
+            except Exception:  # noqa: the failure is the point
+                pass
+            camnode.camera = good
+        do_save()
         mats = [t.matrix for t in node.transforms]
         if len(mats) != len(final):
             fail('save-recomputes', '%s: the node has %d transforms, a plain list has %d' % (label, len(mats), len(final)))
@@ -304,11 +322,13 @@ def run_case(case):
         obs[key_m] = [ints(m) for m in mats]
         obs[key_s] = ints(node.matrix)
         return final
-    final = phase(case['init'], case['edits'], 'after %d edit(s) and save()' % len(case['edits']), 'mats', 'saved')
+    flt = case.get('fault', 0)
+    final = phase(case['init'], case['edits'], 'after %d edit(s)%s and save()' % (len(case['edits']), ', a failed save, its repair' if flt == 1 else ''),
+                  'mats', 'saved', fault=(flt == 1))
     # a second round of edits and a second save (saves may come anywhere in a history)
     edits2 = case.get('edits2') or []
-    final = phase(final, edits2, 'after %d edit(s), save(), %d more edit(s) and a second save()' % (len(case['edits']), len(edits2)),
-                  'mats2', 'saved2')
+    final = phase(final, edits2, 'after %d edit(s), save(), %d more edit(s)%s and a second save()'
+                  % (len(case['edits']), len(edits2), ', a failed save, its repair' if flt == 2 else ''), 'mats2', 'saved2', fault=(flt == 2))
     # ---- write, load again
     buf = io.BytesIO()
     doc.write(buf)
